@@ -25,6 +25,7 @@ var c19Filters = []c19Filter{
 	{"slice", "\"1:3\""}, {"slice", "sl"}, {"join", "\"-\""}, {"join", "ps"}, {"wordcount", ""}, {"floatformat", "2"}, {"floatformat", ""},
 	{"yesno", "\"y,n,m\""}, {"yesno", ""}, {"pluralize", ""}, {"pluralize", "\"es\""}, {"divisibleby", "2"}, {"integer", ""}, {"float", ""},
 	{"escape", ""}, {"addslashes", ""}, {"striptags", ""}, {"urlencode", ""}, {"linebreaksbr", ""}, {"make_list", ""}, {"split", "\",\""},
+	{"default", "[ps, pn]"}, {"default", "[sv, 1]"}, {"join", "pv"}, {"add", "[pn]"},
 	{"length_is", "3"}, {"get_digit", "1"}, {"default_if_none", "\"none\""}, {"safe", ""}, {"escapejs", ""}, {"phone2numeric", ""},
 }
 
@@ -41,6 +42,14 @@ func evalParam(src string, ctx pongo2.Context) *pongo2.Value {
 	}
 	if src[0] == '"' {
 		return pongo2.AsValue(src[1 : len(src)-1])
+	}
+	if src[0] == '[' {
+		// a list literal: its items, evaluated in the current scope
+		var items []any
+		for _, it := range strings.Split(src[1:len(src)-1], ", ") {
+			items = append(items, evalParam(it, ctx).Interface())
+		}
+		return pongo2.AsValue(items)
 	}
 	if src[0] >= '0' && src[0] <= '9' {
 		var n int
@@ -71,7 +80,7 @@ func runC19(r *run) {
 				chain = append(chain, s)
 			}
 			v := c19Values[g.intn(len(c19Values))]
-			pos := g.intn(10)
+			pos := g.intn(11)
 			if pos == 9 && k == 0 {
 				pos = 0 // the filter tag needs a chain
 			}
@@ -208,6 +217,15 @@ func execC19(r *run, c caseT) {
 	if neg {
 		// a filter binds tighter than the unary minus: -5|f is -(5|f)
 		ref = strings.Replace(ref, "rv", "-rv", 1)
+	}
+	if pos == 10 {
+		// one pair among several of a with tag: the other pairs rebind names the chain's
+		// arguments use; every pair is evaluated in the enclosing scope
+		src = "{% with ps=\"-\" pn=1 pv=\"?\" sl=\"9:\" w=" + expr + " %}{{ w }}{% endwith %}"
+		ref = "{% with w=rv %}{{ w }}{% endwith %}"
+		if neg {
+			ref = "{% with w=-rv %}{{ w }}{% endwith %}"
+		}
 	}
 	if pos == 9 {
 		src = c19FilterTag(v, chainS)
